@@ -4,27 +4,33 @@ From Verif Require Import Lib.Wire C19.Model C19.ModelRsv C19.ModelDev C19.Spec 
 Import ListNotations.
 Open Scope Z_scope.
 
-(* input: nodes minors t1a t1b t2a t2b devFirst
-          P then per object: kind node G then per group: type k (minor a b)*k
+(* input: nodes minors t1a t1b t2a t2b devFirst nvf
+          P then per object: kind node G then per group: type k (minor a b)*k ; VG then per vf group: type k (minor*100+index)*k
           K ops (kind uid); S script (kind id) *)
 Definition dec_group (l : list Z) : (Z * list (Z * (Z * Z))) * list Z :=
   match l with
   | t :: r => let '(es, r') := decode_seq dec_triple r in ((t, es), r')
   | [] => ((0, []), [])
   end.
+Definition dec_vfgroup (l : list Z) : (Z * list Z) * list Z :=
+  match l with
+  | t :: r => let '(cs, r') := take_list r in ((t, cs), r')
+  | [] => ((0, []), [])
+  end.
 Definition dec_ddesc (l : list Z) : ddesc * list Z :=
   match l with
-  | kind :: node :: r => let '(gs, r') := decode_seq dec_group r in (mkDD kind node gs, r')
+  | kind :: node :: r => let '(gs, r') := decode_seq dec_group r in
+                         let '(vs, r'') := decode_seq dec_vfgroup r' in (mkDD kind node gs vs, r'')
   | _ => (dd_default, [])
   end.
 Definition decode_dcase (inp : list Z) : dcase :=
   match inp with
-  | nodes :: minors :: a1 :: b1 :: a2 :: b2 :: first :: t =>
+  | nodes :: minors :: a1 :: b1 :: a2 :: b2 :: first :: nvf :: t =>
       let '(ds, r1) := decode_seq dec_ddesc t in
       let '(ops, r2) := decode_seq dec_pair r1 in
       let '(sc, _) := decode_seq dec_pair r2 in
-      mkDCase nodes minors (a1, b1) (a2, b2) (zb first) ds ops sc
-  | _ => mkDCase 0 0 (0, 0) (0, 0) true [] [] []
+      mkDCase nodes minors (a1, b1) (a2, b2) (zb first) nvf ds ops sc
+  | _ => mkDCase 0 0 (0, 0) (0, 0) true 0 [] [] []
   end.
 
 Definition dec_aset (l : list Z) : option (list (Z * (Z * Z))) * list Z :=
@@ -36,7 +42,8 @@ Definition dec_aset (l : list Z) : option (list (Z * (Z * Z))) * list Z :=
 Definition dec_dsnap (c : dcase) (l : list Z) : dsnap * list Z :=
   let '(devs, r1) := decode_many dec_quad (2 * Z.to_nat (d_minors c)) l in
   let '(aset, r2) := decode_many dec_aset (2 * length (d_descs c)) r1 in
-  (mkDSnap devs aset, r2).
+  let '(vfs, r3) := take_n (2 * Z.to_nat (d_minors c) * Z.to_nat (d_nvf c)) r2 in
+  (mkDSnap devs aset vfs, r3).
 Definition dec_dstep (c : dcase) (l : list Z) :=
   let '(a, r) := decode_many (dec_dsnap c) (Z.to_nat (d_nodes c)) l in
   let '(b, r') := decode_many (dec_dsnap c) (Z.to_nat (d_nodes c)) r in ((a, b), r').
